@@ -1,7 +1,7 @@
 (* C17 — Data loading returns every row once, identically across modes and formats.
    Statements only; every proof is `exact <lemma>`. *)
 From Coq Require Import ZArith List Bool Lia.
-From Sky Require Import Result PyList G_load M_Load S_Load P_Load P_LoadDs.
+From Sky Require Import Result PyList G_load M_Load S_Load P_Load P_LoadDs P_LoadFiles P_LoadRen P_LoadE2E P_LoadFmt P_LoadPq.
 Import ListNotations.
 Open Scope Z_scope.
 
@@ -152,5 +152,249 @@ Proof.
   cbv zeta. repeat match goal with |- _ /\ _ => split end; try (vm_compute; reflexivity).
   - split; cbn; repeat constructor; cbn; intuition discriminate.
   - split; cbn; repeat constructor; cbn; intuition discriminate.
+  - eexists. split; vm_compute; reflexivity.
+Qed.
+
+(* ======================================================================
+   Deepening: closed k-file formula, keep [] / None, renaming, back-translation
+   of requested names, Dataset.load_data end to end, csv = npy. *)
+
+(* k files as ONE formula, both modes: for any list of existing well-formed files
+   in which every later file has the kept fields of the first, the result is the
+   fields of the first file ∩ keep set in file order; every column is the
+   concatenation of the files' columns in file order (every row exactly once);
+   the dtype is the numpy promotion of the converted dtypes. *)
+Theorem C17_files_closed : forall mode f0 rest o,
+  mode <> MBad -> wf_file f0 ->
+  (forall f, In f rest -> wf_file f /\
+     forall p, In p (spec_kept o (f_schema f0)) ->
+               zmem (fst p) (map fst (spec_kept o (f_schema f))) = true) ->
+  exists n,
+  npy_load mode (map Some (f0 :: rest)) o =
+    Ok (map (fun p => (fst p,
+               (fold_left promote (map (fun f => spec_dtype_in f o (fst p)) rest)
+                          (spec_dtype o (fst p) (snd p)),
+                concat (map (fun f => spec_col f (fst p)) (f0 :: rest)))))
+            (spec_kept o (f_schema f0)), n).
+Proof. exact npy_files_closed_ex. Qed.
+Print Assumptions C17_files_closed.
+
+(* the guard is needed: a later file lacking a kept field is a KeyError *)
+Theorem C17_files_guard_refuted :
+  exists f0 f1 o, wf_file f0 /\ wf_file f1 /\
+    npy_load MTime [Some f0; Some f1] o = Err KeyError /\
+    npy_load MMemory [Some f0; Some f1] o = Err KeyError.
+Proof.
+  exists (mkFile [(0, 3); (1, 3)] [[1; 2]]), (mkFile [(0, 3)] [[5]]), (mkOpts None [] []).
+  repeat match goal with |- _ /\ _ => split end; try (vm_compute; reflexivity);
+    cbn; repeat constructor; cbn; intuition discriminate.
+Qed.
+Print Assumptions C17_files_guard_refuted.
+
+(* every row exactly once: each column has as many cells as the files have rows *)
+Theorem C17_files_row_count : forall f0 rest o fname dt v,
+  In (fname, (dt, v)) (spec_load_files f0 rest o) ->
+  length v = fold_right (fun f a => (length (f_rows f) + a)%nat) O (f0 :: rest).
+Proof. exact files_row_count. Qed.
+Print Assumptions C17_files_row_count.
+
+(* keep_fields = [] loads no field (npy: empty table; csv: ValueError, "no data
+   columns selected"); keep_fields = None loads every field of the first file *)
+Theorem C17_keep_empty_vs_none : forall mode f0 rest o,
+  mode <> MBad -> wf_file f0 -> (forall f, In f rest -> wf_file f) ->
+  (o_keep o = Some [] ->
+     (exists n, npy_load mode (map Some (f0 :: rest)) o = Ok ([], n)) /\
+     txt_load (map Some (f0 :: rest)) o = Err ValueError) /\
+  (o_keep o = None -> forall t n,
+     npy_load mode (map Some (f0 :: rest)) o = Ok (t, n) -> tnames t = map fst (f_schema f0)).
+Proof. exact keep_empty_vs_none. Qed.
+Print Assumptions C17_keep_empty_vs_none.
+
+(* rename_fields (current code, after 4f30bc8) in closed form for every table and
+   every renaming dictionary: the fields whose name is not a key stay, then every
+   present old field is assigned under its new name, in dictionary order *)
+Theorem C17_rename_closed : forall t conv,
+  NoDup (keys conv) ->
+  rename_fields t conv = Ok (dict_merge (ren_rest t conv) (ren_pairs t conv)).
+Proof. exact rename_closed. Qed.
+Print Assumptions C17_rename_closed.
+
+(* the data follows the names — chains {a:b, b:c} and swaps {a:b, b:a} included —
+   when the new names of the present entries are pairwise distinct; any other name
+   is gone if renamed away and untouched otherwise *)
+Theorem C17_rename_data : forall t conv t',
+  NoDup (keys conv) -> rename_fields t conv = Ok t' ->
+  (NoDup (keys (ren_pairs t conv)) ->
+     forall old new c, In (old, new) conv -> alookup old t = Some c -> alookup new t' = Some c) /\
+  (forall n, zmem n (keys (ren_pairs t conv)) = false ->
+     alookup n t' = if zmem n (keys conv) then None else alookup n t).
+Proof. exact rename_data. Qed.
+Print Assumptions C17_rename_data.
+
+(* fresh new names: staying fields in their order, then the renamed ones *)
+Theorem C17_rename_simple : forall t conv,
+  NoDup (keys conv) -> NoDup (keys (ren_rest t conv ++ ren_pairs t conv)) ->
+  rename_fields t conv = Ok (ren_rest t conv ++ ren_pairs t conv).
+Proof. exact rename_simple. Qed.
+Print Assumptions C17_rename_simple.
+
+(* the distinctness guard is needed: two present fields renamed onto one name lose a column *)
+Theorem C17_rename_guard_refuted :
+  exists t conv t', NoDup (keys conv) /\ rename_fields t conv = Ok t' /\
+    alookup 0 t = Some (3, [1]) /\ In (0, 5) conv /\ alookup 5 t' <> Some (3, [1]).
+Proof.
+  exists [(0, (3, [1])); (1, (3, [2]))], [(0, 5); (1, 5)], [(5, (3, [2]))].
+  repeat match goal with |- _ /\ _ => split end; try (vm_compute; reflexivity).
+  - cbn. repeat constructor; cbn; intuition discriminate.
+  - left. reflexivity.
+  - vm_compute. discriminate.
+Qed.
+Print Assumptions C17_rename_guard_refuted.
+
+(* _conv_new2orig_field_names for an injective renaming dictionary: a requested new
+   name is translated to its original name, any other name is kept *)
+Theorem C17_new2orig : forall ren names,
+  NoDup (map snd ren) ->
+  conv_new2orig names ren
+    = map (fun n => match alookup n (map (fun kv => (snd kv, fst kv)) ren) with Some o => o | None => n end) names
+  /\ (forall o n, In (o, n) ren -> In n names -> In o (conv_new2orig names ren))
+  /\ (forall n, ~ In n (map snd ren) -> In n names -> In n (conv_new2orig names ren)).
+Proof. exact new2orig_all. Qed.
+Print Assumptions C17_new2orig.
+
+(* injectivity is needed: with two old names renamed to one new name only the last is requested *)
+Theorem C17_new2orig_guard_refuted :
+  exists ren names, In (0, 5) ren /\ In 5 names /\ ~ In 0 (conv_new2orig names ren).
+Proof.
+  exists [(0, 5); (1, 5)], [5]. repeat split; try (cbn; tauto).
+  vm_compute. intuition discriminate.
+Qed.
+Print Assumptions C17_new2orig_guard_refuted.
+
+(* Dataset.load_data (npy files, experimental part) in closed form: the keep set
+   computed through the renaming dictionary, the k-file table, then the renaming *)
+Theorem C17_load_data_closed : forall ds o f0 rest,
+  d_fmt ds = FNpy -> do_mode o <> MBad ->
+  d_exp_files ds = map Some (f0 :: rest) -> d_mc_files ds = [] ->
+  wf_file f0 ->
+  (forall f, In f rest -> wf_file f /\
+     forall p, In p (spec_kept (mkOpts (Some (keep_exp ds o)) (do_conv o) (exc_orig o (d_exp_ren ds))) (f_schema f0)) ->
+       zmem (fst p) (map fst (spec_kept (mkOpts (Some (keep_exp ds o)) (do_conv o) (exc_orig o (d_exp_ren ds))) (f_schema f))) = true) ->
+  NoDup (keys (d_exp_ren ds)) ->
+  load_data ds o =
+    Ok (mkData
+          (Some (dict_merge
+             (ren_rest (spec_load_files f0 rest (mkOpts (Some (keep_exp ds o)) (do_conv o) (exc_orig o (d_exp_ren ds)))) (d_exp_ren ds))
+             (ren_pairs (spec_load_files f0 rest (mkOpts (Some (keep_exp ds o)) (do_conv o) (exc_orig o (d_exp_ren ds)))) (d_exp_ren ds))))
+          None (d_livetime ds)).
+Proof. exact load_data_exp_closed. Qed.
+Print Assumptions C17_load_data_closed.
+
+(* End to end: a file field `orig` renamed onto a name `n` that the stage tables
+   (configuration overridden by dataset; mask & (DATAPREPARATION_EXP|ANALYSIS_EXP))
+   require or that the user requested is, after load_data, present under `n` and
+   holds every row of the listed files exactly once, in file order. *)
+Theorem C17_renamed_required_loaded : forall ds o f0 rest orig n dt d,
+  d_fmt ds = FNpy -> do_mode o <> MBad ->
+  d_exp_files ds = map Some (f0 :: rest) -> d_mc_files ds = [] ->
+  wf_file f0 ->
+  (forall f, In f rest -> wf_file f /\
+     forall p, In p (spec_kept (mkOpts (Some (keep_exp ds o)) (do_conv o) (exc_orig o (d_exp_ren ds))) (f_schema f0)) ->
+       zmem (fst p) (map fst (spec_kept (mkOpts (Some (keep_exp ds o)) (do_conv o) (exc_orig o (d_exp_ren ds))) (f_schema f))) = true) ->
+  NoDup (keys (d_exp_ren ds)) -> NoDup (map snd (d_exp_ren ds)) ->
+  NoDup (keys (ren_pairs (spec_load_files f0 rest (mkOpts (Some (keep_exp ds o)) (do_conv o) (exc_orig o (d_exp_ren ds)))) (d_exp_ren ds))) ->
+  In (orig, n) (d_exp_ren ds) -> In (orig, dt) (f_schema f0) ->
+  In n (spec_required (dict_merge (d_cfg_fields ds) (d_ds_fields ds)) 5 ++ do_keep o) ->
+  load_data ds o = Ok d ->
+  exists t dt', dd_exp d = Some t /\
+    alookup n t = Some (dt', concat (map (fun f => spec_col f orig) (f0 :: rest))).
+Proof. exact renamed_required_loaded. Qed.
+Print Assumptions C17_renamed_required_loaded.
+
+Theorem C17_required_loaded : forall ds o f0 rest n dt d,
+  d_fmt ds = FNpy -> do_mode o <> MBad ->
+  d_exp_files ds = map Some (f0 :: rest) -> d_mc_files ds = [] ->
+  wf_file f0 ->
+  (forall f, In f rest -> wf_file f /\
+     forall p, In p (spec_kept (mkOpts (Some (keep_exp ds o)) (do_conv o) (exc_orig o (d_exp_ren ds))) (f_schema f0)) ->
+       zmem (fst p) (map fst (spec_kept (mkOpts (Some (keep_exp ds o)) (do_conv o) (exc_orig o (d_exp_ren ds))) (f_schema f))) = true) ->
+  d_exp_ren ds = [] ->
+  In (n, dt) (f_schema f0) ->
+  In n (spec_required (dict_merge (d_cfg_fields ds) (d_ds_fields ds)) 5 ++ do_keep o) ->
+  load_data ds o = Ok d ->
+  exists t dt', dd_exp d = Some t /\
+    alookup n t = Some (dt', concat (map (fun f => spec_col f n) (f0 :: rest))).
+Proof. exact required_loaded_plain. Qed.
+Print Assumptions C17_required_loaded.
+
+(* csv, relative to the reader contract "np.loadtxt returns the rows of the file":
+   header columns, usecols selection, float64 typing, keep set and dtype map with
+   exception list give exactly the specified table of the float64-typed rows;
+   no selected column is a ValueError *)
+Theorem C17_csv_file : forall f o,
+  wf_file f ->
+  txt_load_file (Some f) o =
+    if (length (spec_kept o (f_schema f)) =? 0)%nat then Err ValueError
+    else Ok (map (fun p => (fst p, (spec_dtype o (fst p) (snd p), spec_col (retype64 f) (fst p))))
+                 (spec_kept o (f_schema (retype64 f))), 1).
+Proof. exact csv_file_spec. Qed.
+Print Assumptions C17_csv_file.
+
+(* csv = npy: for every list of files (missing ones included) in which every
+   existing file selects at least one column, loading the csv files gives the same
+   table or the same error as loading npy files holding the same rows as float64 *)
+Theorem C17_csv_equals_npy : forall files o,
+  Forall (fun p => match p with
+                   | Some f => wf_file f /\ spec_kept o (f_schema f) <> []
+                   | None => True end) files ->
+  match txt_load files o, npy_load MTime (map (option_map retype64) files) o with
+  | Ok (t, _), Ok (t', _) => t = t'
+  | Err e, Err e' => e = e'
+  | _, _ => False
+  end.
+Proof. exact csv_equals_npy. Qed.
+Print Assumptions C17_csv_equals_npy.
+
+(* parquet, relative to the reader contract "read_table returns the table of the
+   file", for keep_fields = None: same-schema files are concatenated and the dtype
+   map with exception list is applied — exactly the npy result *)
+Theorem C17_parquet_equals_npy_nokeep : forall f0 rest o,
+  o_keep o = None -> wf_file f0 ->
+  (forall f, In f rest -> wf_file f /\ f_schema f = f_schema f0) ->
+  pq_load (map Some (f0 :: rest)) o = Ok (spec_load_files f0 rest o) /\
+  exists n, npy_load MTime (map Some (f0 :: rest)) o = Ok (spec_load_files f0 rest o, n).
+Proof. exact parquet_equals_npy_nokeep. Qed.
+Print Assumptions C17_parquet_equals_npy_nokeep.
+
+(* the same-schema guard is needed: with permuted columns pyarrow.concat_tables
+   refuses (ValueError) where the npy loader matches the fields by name *)
+Theorem C17_parquet_guard_refuted :
+  exists f0 f1 o n, wf_file f0 /\ wf_file f1 /\
+    pq_load [Some f0; Some f1] o = Err ValueError /\
+    npy_load MTime [Some f0; Some f1] o = Ok ([(0, (3, [1; 4])); (1, (3, [2; 3]))], n).
+Proof.
+  exists (mkFile [(0, 3); (1, 3)] [[1; 2]]), (mkFile [(1, 3); (0, 3)] [[3; 4]]), (mkOpts None [] []), 2.
+  repeat match goal with |- _ /\ _ => split end; try (vm_compute; reflexivity);
+    cbn; repeat constructor; cbn; intuition discriminate.
+Qed.
+Print Assumptions C17_parquet_guard_refuted.
+
+(* non-vacuity of the new statements: a swap and a chain keep all data; a field
+   renamed onto a required name is loaded from two files; csv of the same rows *)
+Example C17_nonvacuous2 :
+  let t := [(0, (3, [1; 2])); (1, (1, [7; 8])); (2, (3, [5; 6]))] in
+  rename_fields t [(0, 1); (1, 0)] = Ok [(2, (3, [5; 6])); (1, (3, [1; 2])); (0, (1, [7; 8]))] /\
+  rename_fields t [(0, 1); (1, 4)] = Ok [(2, (3, [5; 6])); (1, (3, [1; 2])); (4, (1, [7; 8]))] /\
+  NoDup (keys (ren_pairs t [(0, 1); (1, 0)])) /\
+  (let f1 := mkFile [(0, 3); (8, 1)] [[1; 7]; [2; 7]] in
+   let f2 := mkFile [(8, 1); (0, 3)] [[9; 3]] in
+   let ds := mkDs [(5, 4)] [] FNpy [Some f1; Some f2] [] [(0, 5)] [] (Some 1) in
+   exists d, load_data ds (mkDo [] [(3, 2)] None MMemory) = Ok d /\
+             dd_exp d = Some [(5, (2, [1; 2; 3]))]) /\
+  txt_load [Some (mkFile [(0, 1); (8, 0)] [[1; 7]; [2; 7]])] (mkOpts (Some [8; 4]) [(3, 2)] [])
+    = Ok ([(8, (2, [7; 7]))], 1).
+Proof.
+  cbv zeta. repeat match goal with |- _ /\ _ => split end; try (vm_compute; reflexivity).
+  - cbn. repeat constructor; cbn; intuition discriminate.
   - eexists. split; vm_compute; reflexivity.
 Qed.
